@@ -515,6 +515,74 @@ def check_copy(case, ctx: Ctx) -> None:
     ctx.label("preserve:" + pres, "same-length" if L2 == L else "other-length")
 
 
+# what is printed for blockMesh -----------------------------------------------------------------------
+
+
+@st.composite
+def description_case(draw):
+    """1-4 sections given by count and ratio (closed-form expectation), including strongly contracting / expanding ones"""
+    k = draw(st.integers(1, 4))
+    cuts = sorted(draw(st.lists(st.floats(0.05, 0.95), min_size=k - 1, max_size=k - 1, unique=True)))
+    bounds = [0.0, *cuts, 1.0]
+    ratios = [bounds[i + 1] - bounds[i] for i in range(k)]
+    if min(ratios) < 0.02:
+        ratios = [1.0 / k] * k
+    chops = []
+    for lr in ratios:
+        n = draw(st.one_of(st.integers(1, 12), st.integers(2, 60)))
+        r = draw(st.one_of(st.floats(0.8, 1.25), st.floats(0.5, 2.0)))
+        c = {"length_ratio": lr, "count": n}
+        if draw(st.booleans()) or n == 1:  # a single cell with a total expansion is outside the must-succeed domain
+            c["c2c_expansion"] = r
+        else:
+            c["total_expansion"] = r ** (n - 1)
+        chops.append(c)
+    return {"L": draw(_length), "chops": chops}
+
+
+def _parse_description(text: str):
+    import re
+
+    text = text.strip()
+    if not text.startswith("("):
+        return [[1.0, None, float(text)]]
+    inner = re.findall(r"\(\s*([^()\s]+)\s+([^()\s]+)\s+([^()\s]+)\s*\)", text)
+    return [[float(a), int(b), float(c)] for a, b, c in inner]
+
+
+def check_description(case, ctx: Ctx) -> None:
+    L = case["L"]
+    g = Grading(L)
+    expect = []
+    for c in case["chops"]:
+        try:
+            g.add_chop(Chop(**c))
+        except Exception as ex:
+            raise Violation("section-rejected", f"valid section rejected: {type(ex).__name__}: {ex}", chop=c, L=L) from None
+        n = c["count"]
+        t = c["total_expansion"] if "total_expansion" in c else (c["c2c_expansion"] ** (n - 1) if n > 1 else 1.0)
+        expect.append([c["length_ratio"], n, t])
+    facts = {"L": L, "chops": case["chops"]}
+    for which, grading, want in (("description", g, expect),
+                                 ("inverted.description", g.inverted, [[e[0], e[1], 1.0 / e[2]] for e in reversed(expect)])):
+        text = grading.description
+        try:
+            got = _parse_description(text)
+        except Exception as ex:  # noqa: BLE001
+            raise Violation("description-unparsable", f"{which} = {text!r}: {ex}", which=which, **facts) from None
+        if len(got) != len(want):
+            raise Violation("description-sections", f"{which} = {text!r}: {len(got)} sections for {len(want)} chops", which=which, **facts)
+        for s, e in zip(got, want):
+            if not (math.isfinite(s[2]) and s[2] > 0):
+                raise Violation("expansion-not-finite-positive", f"{which} = {text!r}", which=which, **facts)
+            bad_count = s[1] is not None and s[1] != e[1]
+            if bad_count or rel(s[0], e[0]) > 1e-9 or rel(s[2], e[2]) > 1e-9 * max(e[1], 1):
+                raise Violation("description-value", f"{which} = {text!r}: section {s}, the chops give {e}", which=which, **facts)
+    small = min(min(e[2], 1.0 / e[2]) for e in expect)
+    ctx.nt(len(expect) >= 2 and small < 1.0)
+    ctx.label(f"sections={len(expect)}", "total<1e-3" if small < 1e-3 else ("total<0.1" if small < 0.1 else "mild"))
+
+
 _lr = st.one_of(
     st.sampled_from([-0.1, -1e-9, 0.0, 1e-6, 1e-3, 0.5, 1.0 - 1e-12, 1.0, 1.0 + 1e-9, 1.0 + 1e-6, 1.5]),
     st.floats(-0.5, 1.5),
@@ -536,6 +604,9 @@ CELLS.append(Cell("C03/grading-multi-inverted", grading_case(), check_grading, 6
 CELLS.append(Cell("C03/copy-preserving", copy_case(), check_copy, 1500, 60000,
                   "Chop.copy_preserving(inverted) on the same / another edge length: same count, (reciprocal) expansion, "
                   "preserved size at the right end under the reference progression"))
+CELLS.append(Cell("C03/description", description_case(), check_description, 800, 30000,
+                  "Grading.description / .inverted.description (the text written for blockMesh) of 1-4 count+ratio sections, "
+                  "ratios in [0.5, 2] with up to 60 cells: every printed count and expansion equals the closed form"))
 CELLS.append(Cell("C03/length-ratio",st.fixed_dictionaries({"length_ratio": _lr, "L": _length, "count": st.integers(1, 20)}),
                   check_length_ratio, 300, 5000, "length_ratio on both sides of 0 and 1: accepted iff in (0, 1]"))
 
